@@ -55,6 +55,10 @@ func c12Menu(c lockCfg, thorough bool) func(w *engb.World, st *engb.LState, dept
 		engb.LBlock{Dt: 1, Ops: []engb.LOp{{Kind: "claim", Val: 0}, {Kind: "claim", Val: 0}}},
 		engb.LBlock{Dt: 1, Gas: "7", Ops: []engb.LOp{{Kind: "claim", Val: 0}, {Kind: "grant", Amt: "3"}}},
 		engb.LBlock{Dt: 1, Ops: []engb.LOp{{Kind: "claim", Val: 9}, {Kind: "grant", Amt: "3"}}}, // unknown validator: tx rolls back
+		// several grants in one execution block (a top-up split over transactions, or two funders):
+		// every one of them is granted funds
+		engb.LBlock{Dt: 1, Ops: []engb.LOp{{Kind: "grant", Amt: "3"}, {Kind: "grant", Amt: "5"}}},
+		engb.LBlock{Dt: 1, Gas: "1", Ops: []engb.LOp{{Kind: "grant", Amt: "10"}, {Kind: "grant", Amt: "10"}, {Kind: "grant", Amt: "1000000000000000001"}}},
 		// a claim in the very block at whose end an earlier unlock matures (two kinds of dues meet in one queue)
 		engb.LBlock{Dt: 10, Ops: []engb.LOp{{Kind: "claim", Val: 0}}},
 		// double-sign evidence against a validator with unclaimed rewards (what it has earned stays its own)
@@ -66,6 +70,8 @@ func c12Menu(c lockCfg, thorough bool) func(w *engb.World, st *engb.LState, dept
 			engb.LBlock{Dt: 1, Ops: []engb.LOp{{Kind: "grant", Amt: "1"}}},
 		)
 	}
+	// the chain restarted from an exported state in mid-history: for the reference model a no-op
+	base = append(base, engb.LBlock{Dt: 1, Reimport: true})
 	return func(w *engb.World, st *engb.LState, depth int) []engb.LBlock { return base }
 }
 
